@@ -198,6 +198,10 @@ func hashCase(c *Case) string {
 	return ev.Hash(parts...)
 }
 
+// classify, when set, maps a failure message of lint to the signature of a
+// recorded finding (exotic_test.go sets it to crashSig).
+var classify func(msg string) string
+
 // reserve, when set, reports that the rest of the soft budget belongs to a
 // test that runs later in this package (exotic_test.go sets it); the tests
 // before it then return early, exactly as they do after the deadline.
@@ -349,7 +353,11 @@ func replayFile(t *testing.T, f, test string) {
 		return
 	}
 	ev.Case(ev.Hash("replay", string(b)), true, "corpus")
-	if msg != "" {
+	if msg != "" && classify != nil && ev.IsKnown(classify(msg)) {
+		// a recorded finding (known_findings.json, kind "known"): counted, not a violation
+		ev.KnownFinding(classify(msg), trunc(msg, 600))
+		t.Logf("replay %s: known finding %s", f, classify(msg))
+	} else if msg != "" {
 		ev.Violate(test, fmt.Sprintf("replay of %s:\n%s", f, msg), "json", b)
 		t.Errorf("%s", msg)
 	} else {
